@@ -27,6 +27,10 @@ Definition spec_decode (f : format) (d : doc) (pfs : fields) : outcome (list val
   match d with DMap kvs => spec_fields f kvs pfs | _ => Err 43 end.
 
 
+(* with the set-slice wrapper: sets are read as lists *)
+Definition spec_wrapped (f : format) (d : doc) (pfs : fields) : outcome (list val) :=
+  omap (unset_fields pfs) (spec_decode f d (setslice_fields pfs)).
+
 (* the types the dials side fully reaches: a struct may sit at a field, behind
    one pointer, or as the element of a slice / array field - not inside map
    values or nested slices (those structs are neither tag-copied nor
